@@ -31,13 +31,11 @@ Name(p, kind) == IF UniqueNames \/ kind # "outdir" THEN <<kind, p>> ELSE <<kind,
 BadInput(p)  == sit[p].input \in {"missing", "directory", "empty", "blank"}
 ParseFail(p) == sit[p].input \in {"syntax", "model"}
 Undecodable(p) == sit[p].input = "undecodable"      \* bytes that are not UTF-8
-LibExit(p) == sit[p].input = "libexit"              \* a report definition the library refuses with sys.exit (MessageHandler.error)
+LibExit(p) == FALSE      \* (was: a report definition the library refuses with sys.exit; since F44 own reports are not generated at all)
 EmitFail(p) == sit[p].out \in {"exists", "baddir", "brokenpipe"}
 FromStdin(p) == sit[p].channel \in {"stdin", "dash"}
 \* stdin cannot deliver a missing file or a directory: those situations read an empty stream
-Reports(p) == {<<"auto", sit[p].format>>}
-              \cup (IF sit[p].own \in {"json", "both", "jsonfirst"} THEN {<<"own", "json">>} ELSE {})
-              \cup (IF sit[p].own \in {"csv", "both"} THEN {<<"own", "csv">>} ELSE {})
+Reports(p) == {<<"auto", sit[p].format>>}      \* only the command's own report is generated (F44), whatever sit[p].own says
 
 Init == /\ sit \in [Procs -> Sits]
         /\ pc = [p \in Procs |-> "start"] /\ tmp = {} /\ cwd = {} /\ outdir = [n \in {} |-> {}]
@@ -102,7 +100,10 @@ AllDone == \A p \in Procs : pc[p] = "exited"
 \* decoded may be called "unreadable input" (1) or a failed generation (2); the help text documents 3 for an existing
 \* --output target while the statement lists only 0 / 1 / 2: both are accepted.
 WantExit(p) == IF BadInput(p) THEN 1 ELSE IF ParseFail(p) \/ LibExit(p) \/ Undecodable(p) \/ EmitFail(p) THEN 2 ELSE 0
-AllowedExit(p) == IF Undecodable(p) THEN {1, 2} ELSE IF ~BadInput(p) /\ ~ParseFail(p) /\ ~LibExit(p) /\ sit[p].out = "exists" THEN {2, 3} ELSE {WantExit(p)}
+\* an own report definition that the library refuses: the command succeeds (F44); calling it a failed generation (2, nothing
+\* emitted, nothing left behind) would also honour the statement
+AllowedExit(p) == IF sit[p].own = "badname" /\ WantExit(p) = 0 THEN {0, 2} ELSE
+                  IF Undecodable(p) THEN {1, 2} ELSE IF ~BadInput(p) /\ ~ParseFail(p) /\ ~LibExit(p) /\ sit[p].out = "exists" THEN {2, 3} ELSE {WantExit(p)}
 ExitContract == \A p \in Procs : pc[p] = "exited" =>
    /\ exit[p] = WantExit(p)
    /\ stdout[p] = (IF exit[p] = 0 /\ sit[p].out = "stdout" THEN "auto" ELSE "none")
